@@ -107,7 +107,7 @@ CLAIMED = {
             "DESIGN.md §3 C15"),
     "C17": ("exploration",
             "exhaustive request matrix + rapid schedules with a forced yield point (virtual time)",
-            "EXHAUSTIVE 4200-request matrix (method x EIO x transport x sid state x b64 x jsonp x HTTP/1.1 | HTTP/2) through ServeHTTP against a fixture with live polling/WebSocket/closed sessions: protocol error code "
+            "EXHAUSTIVE 4676-request matrix (method x EIO x transport x sid state x b64 x jsonp x HTTP/1.1 | HTTP/2, POSTs also with a form-encoded body naming valid parameters) through ServeHTTP against a fixture with live polling/WebSocket/closed sessions: protocol error code "
             "belongs to the invalid aspects, no session created/closed, live sessions still work; 10^5..10^6 generated ids + real handshakes pairwise distinct; rounds of 64 simultaneous handshakes; handshakes racing Server.Close in a "
             "synctest bubble with a yield hook before store.set (every created session gets exactly one close callback, nothing admitted after Close returned).",
             "The WebSocket live session runs over the in-memory network; requests are delivered through ServeHTTP on a recorder (no HTTP parsing by net/http for the matrix).",
